@@ -100,6 +100,7 @@ def check(ctx) -> None:
     r113(ctx)
     r114(ctx)
     r115(ctx)
+    r116(ctx)
 
 
 # ----------------------------------------------------------------------
@@ -647,3 +648,53 @@ def r115(ctx) -> None:
             f'FileNotFoundError from reset() is not the KeyError the '
             f'interface promises (STATUS of the old name -> BYE '
             f'[SERVERBUG] instead of NO)')
+
+
+def r116(ctx) -> None:
+    R = ctx.rule('R11.6', 'Maildir++ inferiors are selected by a '
+                 'component-boundary prefix', 2)
+    lay = 'pymap/backend/maildir/layout.py'
+    dl = ctx.proj.cls(lay, 'DefaultLayout')
+    n = 0
+    for fs in dl.methods.values():
+        for f in fs:
+            sub = {t.id for s_ in walk_local(f.node)
+                   if isinstance(s_, ast.Assign) and isinstance(
+                       s_.value, ast.Call) and call_name(s_.value)
+                   == '_get_subdir' for t in s_.targets
+                   if isinstance(t, ast.Name)}
+            if not sub:
+                continue
+            for c in calls_in(f.node, 'startswith'):
+                if not c.args:
+                    continue
+                a = c.args[0]
+                used = {x.id for x in ast.walk(a) if isinstance(x, ast.Name)}
+                if not (used & sub):
+                    continue
+                n += 1
+                bounded = isinstance(a, ast.BinOp) and isinstance(
+                    a.op, ast.Add) and const_value(a.right) == (True, '.') \
+                    and isinstance(a.left, ast.Name) and a.left.id in sub
+                R.check(bounded, f, c,
+                        f'{f.qualname}: `{txt(c)}` tests a whole name '
+                        f'component',
+                        f'`{txt(c)}` selects directory entries by a bare '
+                        f'string prefix of the flat Maildir++ name (no '
+                        f'trailing "."): RENAME Sent Archive also renames '
+                        f'"Sent Items" to "Archive Items" and '
+                        f'"Sentinel/Logs" to "Archiveinel/Logs" — names '
+                        f'nobody asked to rename disappear from LIST')
+    if n < 2:
+        raise AnchorError(f'DefaultLayout: only {n} prefix test(s) on '
+                          f'_get_subdir results found')
+    # the mailbox itself is renamed too: equality disjunct next to the prefix
+    rf = dl.own_method('_rename_folder')
+    if rf is None:
+        raise AnchorError('DefaultLayout._rename_folder vanished')
+    eq = any(isinstance(t, ast.Compare) and isinstance(t.ops[0], ast.Eq)
+             and {txt(t.left), txt(t.comparators[0])} >= {'elem', 'subdir'}
+             for t in walk_local(rf.node))
+    R.check(eq, rf, rf.node, '_rename_folder renames the mailbox itself '
+            '(elem == subdir) as well as its inferiors',
+            'no equality test for the renamed mailbox itself')
